@@ -7,6 +7,7 @@ package sim
 import (
 	"bytes"
 	"encoding/hex"
+	"encoding/json"
 	"math/big"
 
 	sdk "github.com/cosmos/cosmos-sdk/types"
@@ -110,4 +111,37 @@ func AcctOfBytes(b []byte) int {
 		}
 	}
 	return -1
+}
+
+// StripLimitAmounts rewrites a module genesis document so that burn-limit entries for which drop(denom, amount) holds
+// carry no amount field at all ({"denom": "..."}): what a hand-written file looks like when the amount was forgotten.
+// Validation accepts such an entry; the limit stored for it is the zero amount.
+func StripLimitAmounts(raw []byte, drop func(denom, amount string) bool) []byte {
+	var doc map[string]json.RawMessage
+	if json.Unmarshal(raw, &doc) != nil {
+		return raw
+	}
+	var list []map[string]json.RawMessage
+	if json.Unmarshal(doc["per_message_burn_limit_list"], &list) != nil {
+		return raw
+	}
+	changed := false
+	for _, e := range list {
+		var d, a string
+		_ = json.Unmarshal(e["denom"], &d)
+		_ = json.Unmarshal(e["amount"], &a)
+		if _, ok := e["amount"]; ok && drop(d, a) {
+			delete(e, "amount")
+			changed = true
+		}
+	}
+	if !changed {
+		return raw
+	}
+	doc["per_message_burn_limit_list"], _ = json.Marshal(list)
+	out, err := json.Marshal(doc)
+	if err != nil {
+		return raw
+	}
+	return out
 }
